@@ -124,6 +124,7 @@ type script struct {
 	StartDelayMS int      `json:"start_delay_ms"`
 	StopDelayMS  int      `json:"stop_delay_ms"`
 	StopDelayMSFor map[string]int `json:"stop_delay_ms_for"`
+	OwnCert bool `json:"own_cert"` // the server ignores the offered credentials and serves (and reports) a certificate of its own
 }
 
 func loadScript() *script {
@@ -518,7 +519,14 @@ func loggingServer(ctx context.Context, sc *script, req *conformancev1.ServerCom
 			return 1
 		}
 		certBytes = req.ServerCreds.Cert
-		cert, err := internal.ParseServerCert(req.ServerCreds.Cert, req.ServerCreds.Key)
+		keyBytes := req.ServerCreds.Key
+		if sc.OwnCert {
+			var err error
+			if certBytes, keyBytes, err = internal.NewServerCert(); err != nil {
+				return 1
+			}
+		}
+		cert, err := internal.ParseServerCert(certBytes, keyBytes)
 		if err != nil {
 			return 1
 		}
@@ -581,7 +589,7 @@ func loggingServer(ctx context.Context, sc *script, req *conformancev1.ServerCom
 	if sc.OmitHost {
 		resp.Host = ""
 	}
-	logEv("server_ready", map[string]any{"key": key, "host": host, "port": port, "has_cert": len(resp.PemCert) > 0, "host_omitted": sc.OmitHost})
+	logEv("server_ready", map[string]any{"key": key, "host": host, "port": port, "has_cert": len(resp.PemCert) > 0, "host_omitted": sc.OmitHost, "own_cert": sc.OwnCert})
 	_, _ = os.Stdout.Write(frame(resp))
 	if ms, ok := sc.DieAfterMSFor[key]; ok {
 		go func() {
